@@ -19,7 +19,12 @@ CLASSES = {
             "adapter": ("harness.adapters.free", "MonoidalAdapter")},
     "rigid": {"mc": "MC_Rigid", "trace": "Trace_Rigid",
               "adapter": ("harness.adapters.free", "RigidAdapter")},
+    "cat": {"mc": "MC_Cat", "trace": "Trace_Cat",
+            "adapter": ("harness.adapters.free", "CatAdapter")},
 }
+# the free category: paths in a four-edge graph (every state is replayed)
+CAT_TIERS = {"quick": {"MaxBoxes": 4, "MaxWidth": 1, "states": 2000, "sim_num": 60, "sim_depth": 10, "sim_MaxBoxes": 7, "sim_MaxWidth": 1},
+             "thorough": {"MaxBoxes": 6, "MaxWidth": 1, "states": 20000, "sim_num": 600, "sim_depth": 14, "sim_MaxBoxes": 9, "sim_MaxWidth": 1}}
 # the two-generator machine (split, state and their daggers) is explored deeper: ties, longer normalisations
 TIE_TIERS = {"quick": {"MaxBoxes": 5, "MaxWidth": 2, "states": 250, "sim_num": 40, "sim_depth": 8, "sim_MaxBoxes": 6, "sim_MaxWidth": 3,
                        "spiral_cups": 2, "spiral_walks": 2, "spiral_depth": 4},
@@ -40,7 +45,7 @@ CANARY_OPS = {"C01": None, "C02": None, "C05": {"interchange"}, "C06": {"normal_
 
 OPS = {
     "C01": None,   # everything
-    "C02": {"gen", "ctor", "then", "thenSelf", "tensorR", "tensorL", "tensorSelf", "dagger", "slice", "index"},
+    "C02": {"gen", "ctor", "retype", "then", "thenSelf", "tensorR", "tensorL", "tensorSelf", "dagger", "slice", "index"},
     "C05": {"interchange"},
     "C06": {"interchange", "normal_form", "normalize", "foliate"},
 }
@@ -166,7 +171,7 @@ def canary(trace_module, judge, trace_file, verdicts, work, ops):
 
 def run(prop, judge, tier, seed, t0, cls="monoidal", invariants=(), drift=False, extra_hook=None,
         families=False, keep_states=False):
-    cfgt = RIGID_TIERS[tier] if cls == "rigid" else TIE_TIERS[tier] if cls == "tie" else TIERS[tier]
+    cfgt = RIGID_TIERS[tier] if cls == "rigid" else TIE_TIERS[tier] if cls == "tie" else CAT_TIERS[tier] if cls == "cat" else TIERS[tier]
     ops = OPS[prop]
     A = get_adapter(cls)
     mc, trace_module = CLASSES[cls]["mc"], CLASSES[cls]["trace"]
